@@ -695,15 +695,36 @@ BUILTINS = {'int': int, 'str': str, 'len': len, 'abs': abs, 'min': min, 'max': m
             'datetime': _dt.datetime, 'timedelta': _dt.timedelta, 'list': list, 'tuple': tuple, 'range': range}
 DT_METHODS = {'isoweekday', 'weekday', 'replace', 'date', 'isocalendar', 'toordinal'}
 TD_KW = {'days', 'weeks', 'hours', 'minutes', 'seconds'}
-CONCRETE = (int, bool, str, type(None), _dt.datetime, _dt.timedelta, _dt.date, list, tuple, float)
+CONCRETE = (int, bool, str, type(None), _dt.datetime, _dt.timedelta, _dt.date, list, tuple, float, dict)
+STR_METHODS = {'startswith', 'endswith', 'split', 'join', 'strip', 'lstrip', 'rstrip', 'lower', 'upper', 'replace', 'find',
+               'isnumeric', 'isdigit', 'format', 'count', 'index'}
+DICT_METHODS = {'pop', 'get', 'keys', 'values', 'items', 'update', 'setdefault'}
+LIST_METHODS = {'append', 'extend', 'insert', 'index', 'count'}
+
+
+class SelfRef:
+    """`self` of an interpreted method: methods resolve through the class hierarchy, other attributes are opaque"""
+
+    def __init__(self, cls):
+        self.cls = cls
+
+
+class _Break(Exception):
+    pass
+
+
+class _Continue(Exception):
+    pass
 
 
 class Interp:
-    def __init__(self, idx, hooks=(), budget=20000):
+    def __init__(self, idx, hooks=(), budget=20000, oracle=None):
         self.idx = idx
         self.hooks = list(hooks)        # [(predicate(call node) -> bool, value)]
         self.budget = budget
         self.depth = 0
+        self.oracle = oracle            # oracle(if node, expression) -> bool | None for conditions on unmodelled values
+        self.cur_if = None
 
     # ---- names
     def lookup(self, name, env, ctx):
@@ -744,6 +765,16 @@ class Interp:
             return e.value
         if isinstance(e, ast.Name):
             return self.lookup(e.id, env, ctx)
+        if isinstance(e, ast.Dict):
+            out = {}
+            for k, v in zip(e.keys, e.values):
+                if k is None:
+                    return OPAQUE
+                kk = self.eval(k, env, ctx)
+                if isinstance(kk, Opaque):
+                    return OPAQUE
+                out[kk] = self.eval(v, env, ctx)
+            return out
         if isinstance(e, (ast.List, ast.Tuple)):
             vals = [self.eval(x, env, ctx) for x in e.elts]
             return vals if isinstance(e, ast.List) else tuple(vals)
@@ -751,6 +782,17 @@ class Interp:
             base = self.eval(e.value, env, ctx)
             if isinstance(base, Obj):
                 return base.attrs.get(e.attr, OPAQUE)
+            if isinstance(base, SelfRef):
+                k, f = self.idx.find_method(base.cls, e.attr)
+                if f is not None:
+                    return ('method', base, FuncRef(k.mod, k, f))
+                return OPAQUE
+            if isinstance(base, str) and e.attr in STR_METHODS:
+                return ('bound', base, e.attr)
+            if isinstance(base, dict) and e.attr in DICT_METHODS:
+                return ('bound', base, e.attr)
+            if isinstance(base, list) and e.attr in LIST_METHODS:
+                return ('bound', base, e.attr)
             if isinstance(base, ClassRef):
                 k, v = self.idx.class_attr(base.cls, e.attr)
                 if v is not None:
@@ -779,6 +821,10 @@ class Interp:
             last = None
             for v in e.values:
                 last = self.eval(v, env, ctx)
+                if isinstance(last, Opaque) and self.oracle is not None and self.cur_if is not None:
+                    o = self.oracle(self.cur_if, v)
+                    if o is not None:
+                        last = o
                 if isinstance(last, Opaque):
                     return OPAQUE
                 if isinstance(e.op, ast.And) and not last:
@@ -842,6 +888,14 @@ class Interp:
             return out
         if isinstance(e, ast.Subscript):
             base = self.eval(e.value, env, ctx)
+            if isinstance(base, dict):
+                k = self.eval(e.slice, env, ctx)
+                if isinstance(k, Opaque):
+                    return OPAQUE
+                try:
+                    return base[k]
+                except (KeyError, TypeError) as ex:
+                    raise PyRaise(ex)
             if not isinstance(base, (list, tuple, str)):
                 return OPAQUE
             if isinstance(e.slice, ast.Slice):
@@ -889,6 +943,13 @@ class Interp:
         if isinstance(f, Opaque):
             return OPAQUE
         opaque_arg = any(isinstance(a, Opaque) for a in args) or any(isinstance(v, Opaque) for v in kwargs.values())
+        if isinstance(f, tuple) and len(f) == 3 and f[0] == 'method':
+            return self.call_function(f[2], args, kwargs, self_value=f[1])
+        if isinstance(f, tuple) and len(f) == 3 and f[0] == 'bound' and isinstance(f[1], (dict, list)):
+            try:
+                return getattr(f[1], f[2])(*args, **kwargs)
+            except (TypeError, ValueError, KeyError, IndexError) as ex:
+                raise PyRaise(ex)
         if isinstance(f, tuple) and len(f) == 3 and f[0] == 'bound':
             if opaque_arg:
                 return OPAQUE
@@ -916,7 +977,7 @@ class Interp:
                 raise PyRaise(ex)
         return OPAQUE
 
-    def call_function(self, fref, args, kwargs):
+    def call_function(self, fref, args, kwargs, self_value=None):
         fn = fref.fn
         self.depth += 1
         if self.depth > 8:
@@ -926,7 +987,7 @@ class Interp:
             is_static = any(isinstance(d, ast.Name) and d.id == 'staticmethod' for d in fn.decorator_list)
             env = {}
             if fref.cls is not None and not is_static and params and params[0] in ('self', 'cls'):
-                env[params[0]] = OPAQUE
+                env[params[0]] = self_value if self_value is not None else OPAQUE
                 params = params[1:]
             defaults = fn.args.defaults
             for i, pname in enumerate(params):
@@ -968,7 +1029,15 @@ class Interp:
                 if not isinstance(o, Obj):
                     o = env[t.value.id] = Obj()
                 o.attrs[t.attr] = v
-        # subscript stores are ignored
+        elif isinstance(t, ast.Subscript):
+            base = self.eval(t.value, env, ctx)
+            if isinstance(base, (dict, list)) and not isinstance(t.slice, ast.Slice):
+                k = self.eval(t.slice, env, ctx)
+                if not isinstance(k, Opaque):
+                    try:
+                        base[k] = v
+                    except (IndexError, TypeError, KeyError) as ex:
+                        raise PyRaise(ex)
 
     def stmt(self, s, env, ctx):
         self.budget -= 1
@@ -992,7 +1061,15 @@ class Interp:
                 else:
                     env[s.target.id] = OPAQUE
         elif isinstance(s, ast.If):
-            t = self.eval(s.test, env, ctx)
+            prev_if, self.cur_if = self.cur_if, s
+            try:
+                t = self.eval(s.test, env, ctx)
+                if isinstance(t, Opaque) and self.oracle is not None:
+                    o = self.oracle(s, s.test)
+                    if o is not None:
+                        t = o
+            finally:
+                self.cur_if = prev_if
             if isinstance(t, Opaque):
                 raise Unreadable('condition `%s` (line %d) depends on a value the interpreter does not model'
                                  % (ast.unparse(s.test)[:60], s.lineno))
@@ -1008,7 +1085,12 @@ class Interp:
                 n += 1
                 if n > 500:
                     raise Unreadable('loop bound')
-                self.block(s.body, env, ctx)
+                try:
+                    self.block(s.body, env, ctx)
+                except _Break:
+                    break
+                except _Continue:
+                    continue
         elif isinstance(s, ast.Return):
             raise _Return(self.eval(s.value, env, ctx) if s.value is not None else None)
         elif isinstance(s, ast.Expr):
@@ -1027,12 +1109,33 @@ class Interp:
             else:
                 self.block(s.orelse, env, ctx)
             self.block(s.finalbody, env, ctx)
-        elif isinstance(s, (ast.Pass, ast.Import, ast.ImportFrom, ast.Break, ast.Continue)):
-            if isinstance(s, (ast.Break, ast.Continue)):
-                raise Unreadable('break/continue')
+        elif isinstance(s, ast.Break):
+            raise _Break()
+        elif isinstance(s, ast.Continue):
+            raise _Continue()
+        elif isinstance(s, ast.For):
+            it = self.eval(s.iter, env, ctx)
+            if isinstance(it, dict):
+                it = list(it)
+            if not isinstance(it, (list, tuple, range)):
+                raise Unreadable('for-loop over a value the interpreter does not model (line %d)' % s.lineno)
+            broke = False
+            for item in list(it):
+                self.assign(s.target, item, env, ctx)
+                try:
+                    self.block(s.body, env, ctx)
+                except _Break:
+                    broke = True
+                    break
+                except _Continue:
+                    continue
+            if not broke:
+                self.block(s.orelse, env, ctx)
+        elif isinstance(s, (ast.Pass, ast.Import, ast.ImportFrom)):
+            pass
         elif isinstance(s, ast.Raise):
             raise PyRaise(RuntimeError('raise'))
-        elif isinstance(s, (ast.For, ast.With)):
+        elif isinstance(s, ast.With):
             raise Unreadable('%s statement line %d' % (type(s).__name__, s.lineno))
 
 
